@@ -272,7 +272,10 @@ def bucket(case, out):
     yield "ran:" + ("0" if n == 0 else "1-100" if n <= 100 else "101-202" if n <= 202 else ">202")
 
 
-shrink = vc.shrink_script
+def shrink(case):
+    for c in vc.shrink_script(case):
+        if all(vc.ret_ok(op[4]) for op in c["ops"] if op[0] == "sched"):
+            yield c
 
 LEVEL_TEXT = ("Lean: the loop of start()/advance_to() is a total function — accepted by Lean by well-founded recursion on the number of pending "
               "action-tree nodes, for any finite set of action trees, any number of equal due times, both clock flavours (start_terminates, with the "
